@@ -82,8 +82,11 @@ class Template:
         self.aux = os.path.join(self.dir, 'aux')
         os.makedirs(self.dir)
         world = model.World(self.root, self.cfg, aux=self.aux)
+        self.damaged = set()  # keys whose loose copy was damaged on purpose in the pre-state (their state is judged by the re-add only)
         for op in variant.get('pre', []):
             world.apply(op)
+            if op['op'] == 'damage_loose':
+                self.damaged.add(world.key(op['c']))
         if world.problems:
             raise RuntimeError(f'pre-state ops reported problems: {world.problems[:2]}')
         world.close()
@@ -336,7 +339,7 @@ def disk_oracle(tmpl: Template, rundir: str, tag: str, allow_minus1_failure=True
         cnt['states-with-index-pointing-at-temporary-pack'] += 1
     # (a) every pre-existing, non-deleted object is complete where the index / loose folder says
     for key, data in tmpl.pre_model.items():
-        if key in tmpl.deleted:
+        if key in tmpl.deleted or key in tmpl.damaged:
             continue
         got, prob = snap.read_key(key)
         cnt['pre-existing-objects-checked'] += 1
@@ -350,6 +353,8 @@ def disk_oracle(tmpl: Template, rundir: str, tag: str, allow_minus1_failure=True
             probs.append((f'{tag}:row-torn', f'index row {row.hashkey[:12]} (pack {row.pack_id} @{row.offset}+{row.length}) '
                                              f'does not designate its object: {prob or "digest/size mismatch"}'))
     for key in snap.loose:
+        if key in tmpl.damaged:
+            continue
         data = snap.read_loose(key)
         cnt['visible-loose-checked'] += 1
         if data is None or rawread.hexdigest(snap.hash_type, data) != key:
@@ -361,7 +366,7 @@ def disk_oracle(tmpl: Template, rundir: str, tag: str, allow_minus1_failure=True
 
     visible = snap.visible_keys()
     with Container(root) as fresh:
-        for key in set(tmpl.known) | visible:
+        for key in (set(tmpl.known) | visible) - tmpl.damaged:
             cnt['fresh-handle-reads'] += 1
             try:
                 got = fresh.get_object_content(key)
